@@ -2,6 +2,29 @@ import TshVerif.Lemmas.ParserTypedStmt
 namespace Tsh.Parser
 open Tsh Tsh.Tr Tsh.LexTables
 
+theorem skipNL_any : ∀ fuel, Post (skipNL fuel) (fun _ => True) := by
+  intro fuel
+  induction fuel with
+  | zero => unfold skipNL; exact Post.div
+  | succ fuel ih =>
+    unfold skipNL
+    pm_bind; intro t
+    pm_if
+    · pm_bind; intro _
+      exact ih
+    · exact Post.pure' trivial
+
+theorem evalImport_any : Post evalImport (fun _ => True) := by
+  unfold evalImport
+  pm_bind; intro t
+  pm_bind; rintro ⟨alias, t2⟩
+  pm_if
+  · exact Post.err
+  pm_bind; intro n
+  pm_if
+  · exact Post.err
+  · exact Post.pure' trivial
+
 theorem registerImported_ok : ∀ (stmts : List Stmt) (ctx : Ctx) (out : List Stmt), CtxOK ctx → stmtsP out → stmtsP stmts →
     CtxOK (stmts.foldl (fun (acc : Ctx × List Stmt) st =>
       let (ctx, out) := acc
@@ -98,141 +121,158 @@ theorem cleanProgram_ok {used : List (String × List String)} {body b : List Stm
     simp only [hk, Option.bind_eq_bind, Option.bind_some, Option.pure_def, Option.some.injEq] at h
     exact h ▸ stmts_filter _ hb
 
+/-- a result is good: a value with `Q`, or an error / fuel exhaustion - never the `panic` outcome -/
+def Good {α : Type} (r : PRes α) (Q : α → Prop) : Prop :=
+  match r with
+  | .ok a _ => Q a
+  | .panic => False
+  | _ => True
+
+theorem Post.good {α : Type} {m : PM α} {Q : α → Prop} (h : Post m Q) (s : PSt) : Good (m s) Q := by
+  unfold Good
+  split
+  · rename_i a s' he; exact h.ok s a s' he
+  · rename_i he; exact h.np s he
+  · trivial
+
+theorem Good.ok {α : Type} {r : PRes α} {Q : α → Prop} (h : Good r Q) {a : α} {s : PSt} (he : r = .ok a s) : Q a := by
+  subst he; exact h
+
+theorem Good.np {α : Type} {r : PRes α} {Q : α → Prop} (h : Good r Q) : r ≠ .panic := by
+  intro he; subst he; exact h
+
 /-- the statement about one nesting depth of imports -/
 def FileOK (depth : Nat) : Prop :=
-  ∀ fs path imported importing p s, parseFile depth fs path imported importing = .ok p s → stmtsP p.body
+  ∀ fs path imported importing, Good (parseFile depth fs path imported importing) (fun p => stmtsP p.body)
 
-theorem importLoop_ok (S : ∀ fuel, StmtIH fuel) {depth : Nat} (hd : FileOK depth) (fs : FileSys) (path : String)
+theorem importLoop_ok {depth : Nat} (hd : FileOK depth) (fs : FileSys) (path : String)
     (importing : List String) (multiple : Bool) :
-    ∀ (fuel : Nat) (ctx : Ctx) (acc : List Stmt) (s0 s' : PSt) (r : Ctx × List Stmt), CtxOK ctx → stmtsP acc →
-      importLoop depth fs path importing fuel multiple ctx acc s0 = .ok r s' → CtxOK r.1 ∧ stmtsP r.2 := by
+    ∀ (fuel : Nat) (ctx : Ctx) (acc : List Stmt) (s0 : PSt), CtxOK ctx → stmtsP acc →
+      Good (importLoop depth fs path importing fuel multiple ctx acc s0) (fun r => CtxOK r.1 ∧ stmtsP r.2) := by
   intro fuel
   induction fuel with
-  | zero => intro ctx acc s0 s' r _ _ h; unfold importLoop at h; simp at h
+  | zero => intro ctx acc s0 _ _; unfold importLoop; trivial
   | succ fuel ih =>
-    intro ctx acc s0 s' r hc hacc h
-    unfold importLoop at h
-    dsimp only at h
-    split at h
-    · split at h
-      · split at h
-        · simp at h
+    intro ctx acc s0 hc hacc
+    unfold importLoop
+    dsimp only
+    have hskip : ∀ s, Good (if multiple = true then skipNL fuel s else PRes.ok () s) (fun _ => True) := by
+      intro s
+      split
+      · exact (skipNL_any fuel).good s
+      · trivial
+    split
+    · split
+      · split
+        · trivial
         · rename_i abs alias hres
-          split at h
-          · rename_i parsed sp hp
-            have hbody := hd _ _ _ _ _ _ hp
-            split at h
-            · simp at h
-            · split at h
-              · split at h
-                · simp only [PRes.ok.injEq] at h
-                  obtain ⟨rfl, _⟩ := h
-                  exact ⟨hc.imports _, stmts_append hacc hbody⟩
-                · split at h
-                  · simp only [PRes.ok.injEq] at h
-                    obtain ⟨rfl, _⟩ := h
-                    exact ⟨hc.imports _, stmts_append hacc hbody⟩
-                  · split at h
-                    · exact ih _ _ _ _ _ (hc.imports _) (stmts_append hacc hbody) h
-                    · simp at h
-              · simp at h
-              · simp at h
-              · simp at h
-          · simp at h
-          · simp at h
-          · simp at h
-      · simp at h
-      · simp at h
-      · simp at h
-    · simp at h
-    · simp at h
-    · simp at h
+          have hp := hd fs abs true (importing ++ [path])
+          split
+          · rename_i parsed sp hpe
+            have hbody : stmtsP parsed.body := hp.ok hpe
+            split
+            · trivial
+            · split
+              · split
+                · exact ⟨hc.imports _, stmts_append hacc hbody⟩
+                · split
+                  · exact ⟨hc.imports _, stmts_append hacc hbody⟩
+                  · split
+                    · exact ih _ _ _ (hc.imports _) (stmts_append hacc hbody)
+                    · trivial
+              · trivial
+              · rename_i he; exact (hskip _).np he
+              · trivial
+          · trivial
+          · rename_i he; exact hp.np he
+          · trivial
+      · trivial
+      · rename_i he; exact (evalImport_any.good _).np he
+      · trivial
+    · trivial
+    · rename_i he; exact (hskip _).np he
+    · trivial
 
-theorem evalImports_ok (S : ∀ fuel, StmtIH fuel) {depth : Nat} (hd : FileOK depth) (fs : FileSys) (path : String)
-    (importing : List String) (fuel : Nat) (ctx : Ctx) (s0 s' : PSt) (r : Ctx × List Stmt) (hc : CtxOK ctx)
-    (h : evalImports depth fs path importing fuel ctx s0 = .ok r s') : CtxOK r.1 ∧ stmtsP r.2 := by
-  unfold evalImports at h
-  dsimp only at h
-  split at h
-  · split at h
-    · simp only [PRes.ok.injEq] at h
-      obtain ⟨rfl, _⟩ := h
-      exact ⟨hc, rfl⟩
-    · split at h
-      · split at h
-        · simp at h
-        · split at h
-          · rename_i c stmts s2 hl
-            obtain ⟨h1, h2⟩ := importLoop_ok S hd fs path importing true fuel ctx [] _ _ _ hc rfl hl
-            simp only [PRes.ok.injEq] at h
-            obtain ⟨rfl, _⟩ := h
-            exact registerImported_post h1 h2
-          · simp at h
-          · simp at h
-          · simp at h
-      · split at h
-        · rename_i c stmts s2 hl
-          obtain ⟨h1, h2⟩ := importLoop_ok S hd fs path importing false fuel ctx [] _ _ _ hc rfl hl
-          simp only [PRes.ok.injEq] at h
-          obtain ⟨rfl, _⟩ := h
-          exact registerImported_post h1 h2
-        · simp at h
-        · simp at h
-        · simp at h
-  · simp at h
-  · simp at h
-  · simp at h
+theorem evalImports_ok {depth : Nat} (hd : FileOK depth) (fs : FileSys) (path : String)
+    (importing : List String) (fuel : Nat) (ctx : Ctx) (s0 : PSt) (hc : CtxOK ctx) :
+    Good (evalImports depth fs path importing fuel ctx s0) (fun r => CtxOK r.1 ∧ stmtsP r.2) := by
+  unfold evalImports
+  dsimp only
+  split
+  · split
+    · exact ⟨hc, rfl⟩
+    · split
+      · split
+        · trivial
+        · have hl := fun s => importLoop_ok hd fs path importing true fuel ctx [] s hc rfl
+          split
+          · rename_i c stmts s2 hle
+            have := (hl _).ok hle
+            exact registerImported_post this.1 this.2
+          · trivial
+          · rename_i he; exact (hl _).np he
+          · trivial
+      · have hl := fun s => importLoop_ok hd fs path importing false fuel ctx [] s hc rfl
+        split
+        · rename_i c stmts s2 hle
+          have := (hl _).ok hle
+          exact registerImported_post this.1 this.2
+        · trivial
+        · rename_i he; exact (hl _).np he
+        · trivial
+  · trivial
+  · rename_i he; exact ((skipNL_any fuel).good _).np he
+  · trivial
 
 theorem evalProgram_ok (S : ∀ fuel, StmtIH fuel) {depth : Nat} (hd : FileOK depth) (fs : FileSys) (path : String)
-    (importing : List String) (fuel : Nat) (s0 s' : PSt) (body : List Stmt)
-    (h : evalProgram depth fs path importing fuel s0 = .ok body s') : stmtsP body := by
-  unfold evalProgram at h
-  split at h
-  · rename_i ctx imported s hi
-    obtain ⟨h1, h2⟩ := evalImports_ok S hd fs path importing fuel {} _ _ _ CtxOK.empty hi
-    dsimp only at h
-    split at h
-    · rename_i own s2 hb
-      simp only [PRes.ok.injEq] at h
-      obtain ⟨rfl, _⟩ := h
-      have := (S fuel).blockContent _ _ _ _ (h1.imports _) _ _ _ hb
-      exact stmts_append h2 this.1
-    · simp at h
-    · simp at h
-    · simp at h
-  · simp at h
-  · simp at h
-  · simp at h
+    (importing : List String) (fuel : Nat) (s0 : PSt) :
+    Good (evalProgram depth fs path importing fuel s0) stmtsP := by
+  unfold evalProgram
+  have hi := evalImports_ok hd fs path importing fuel {} s0 CtxOK.empty
+  split
+  · rename_i ctx imported s hie
+    have h12 := hi.ok hie
+    dsimp only
+    have hb := ((S fuel).blockContent [TT_EOF] (fun _ _ => true)
+      { ctx with imports := assocSet ctx.imports s.pfx s.pfx } .program (h12.1.imports _)).good s
+    split
+    · rename_i own s2 hbe
+      exact stmts_append h12.2 (hb.ok hbe).1
+    · trivial
+    · rename_i he; exact hb.np he
+    · trivial
+  · trivial
+  · rename_i he; exact hi.np he
+  · trivial
 
 theorem fileOK_all (S : ∀ fuel, StmtIH fuel) : ∀ depth, FileOK depth := by
   intro depth
   induction depth with
-  | zero => intro fs path imported importing p s h; unfold parseFile at h; simp at h
+  | zero => intro fs path imported importing; unfold parseFile; trivial
   | succ depth ih =>
-    intro fs path imported importing p s h
-    unfold parseFile at h
-    split at h
-    · simp at h
-    split at h
-    · simp at h
-    split at h
-    · simp at h
-    · split at h
-      · simp at h
-      · dsimp only at h
-        split at h
-        · rename_i body s1 he
-          have hb := evalProgram_ok S ih _ _ _ _ _ _ _ he
-          split at h
-          · simp only [PRes.ok.injEq] at h
-            obtain ⟨rfl, _⟩ := h
-            exact hb
-          · split at h
+    intro fs path imported importing
+    unfold parseFile
+    split
+    · trivial
+    split
+    · trivial
+    split
+    · trivial
+    · split
+      · trivial
+      · dsimp only
+        have he := evalProgram_ok S ih fs path importing (fuelFor ‹Array Tok›.size) { toks := ‹Array Tok›, pfx := if imported = true then ‹String› else "" }
+        split
+        · rename_i body s1 hee
+          have hb := he.ok hee
+          split
+          · exact hb
+          · split
             · rename_i b hcl
-              simp only [PRes.ok.injEq] at h
-              obtain ⟨rfl, _⟩ := h
               exact cleanProgram_ok hcl hb
-            · simp at h
-        · simp at h
-        · simp at h
-        · simp at h
+            · trivial
+        · trivial
+        · rename_i hp; exact he.np hp
+        · trivial
+
+end Tsh.Parser
